@@ -7,6 +7,7 @@
 mod ctrl;
 mod e2e;
 mod evmasm;
+mod gate;
 mod blocks;
 mod cache;
 mod components;
@@ -208,6 +209,7 @@ fn main() {
         "cache-history" => cache::cmd_cache_history(&args),
         "cache-race" => cache::cmd_cache_race(&args),
         "reserve" => reserve::cmd_reserve(&args),
+        "commit-gate" => gate::cmd_commit_gate(&args),
         other => J::obj(vec![("error", J::Str(format!("unknown subcommand {other}")))]),
     };
     println!("{}", out.render());
